@@ -98,8 +98,8 @@ def simplex_within_ranges(h):
                 'forall(0, n, lambda k: val[k] == (old[k] * 1.05 if old[k] != 0 else 0.05 * 0.05 * 0.1))', **e)
 
 
-# SetInitialPoints itself (member 0 == x0) is not under contract: it juggles numpy 0-d arrays (`asarray(radius).shape`),
-# which the model does not distinguish from python floats; the bounded layer checks the clause on every scenario.
+# SetInitialPoints itself (member 0 == x0) is under contract below (C01/SetInitialPoints): asarray(scalar) is modelled as
+# a marked 0-d array.
 
 
 @contract('C02/SetRandomInitialPoints/some-limits-None', ['C02'], AS + '.SetRandomInitialPoints', native=False)
@@ -208,3 +208,43 @@ def set_initial_points(h):
         h.check('the-sampling-box-is-the-radius-box',
                 'R >= 1 or R1 >= 1 or (mn[1] == b * (1 - R1) and mx[1] == b * (1 + R1)' +
                 (' and mn[0] == -R and mx[0] == R)' if zero0 else ' and mn[0] == a * (1 - R) and mx[0] == a * (1 + R))'), **e)
+
+
+@contract('C01/SetInitialPoints/one-parameter', ['C01', 'C08'], AS + '.SetInitialPoints', native=False)
+def set_initial_points_1d(h):
+    """one parameter: the guess may be a plain number (a rank-0 array, reshaped to one element) or a one-element list;
+    it becomes member 0, the rest is drawn once from x0*(1 -+ radius) (+-radius for a zero guess); a rank-2 guess is refused"""
+    if not h.is_sym():
+        h.unsupported('symbolic only')
+    form = h.choice('x0_given_as', ['number', 'list', 'rank-2'])
+    zero = h.choice('x0_is_zero', [False, True])
+    a = 0.0 if zero else h.real('x0')
+    if not zero:
+        h.assume('a != 0', a=a)
+    rad = h.real('radius')
+    h.assume('rad > 0 and rad < 1', rad=rad)
+    x0 = {'number': a, 'list': h.clist([a]), 'rank-2': h.clist([h.clist([a])])}[form]
+    pop = h.clist([h.vec('old0', 1), h.vec('old1', 1)])
+    s = h.obj(AS, nDim=1, nPop=2, population=pop)
+    calls = []
+
+    def rnd(I, c, args, kwargs):
+        calls.append((args[1], args[2]))
+        for row in I.st.heap[I.st.heap[args[0]]['population']]:
+            I.st.heap[row] = [I.st.fresh('drawn', 'real')]
+        return None
+    h.set_summaries({(A, 'AbstractSolver.SetRandomInitialPoints'): rnd})
+    r, exc = h.call_raises(h.getattr(s, 'SetInitialPoints'), x0, rad)
+    if form == 'rank-2':
+        h.check('a-rank-2-guess-is-refused', 'ok', ok=(exc == 'ValueError' and not calls))
+        return
+    h.check('no-exception', 'ok', ok=(exc is None))
+    if exc is not None:
+        return
+    h.check('the-guess-is-member-0-of-the-population', 's.population[0][0] == a and len(s.population[0]) == 1 and len(s.population) == 2', s=s, a=a)
+    ok = len(calls) == 1
+    h.check('other-members-drawn-once-around-the-guess', 'ok', ok=ok)
+    if ok:
+        mn, mx = calls[0]
+        h.check('the-sampling-box-is-the-radius-box', 'len(mn) == 1 and len(mx) == 1 and ' +
+                ('mn[0] == -R and mx[0] == R' if zero else 'mn[0] == a * (1 - R) and mx[0] == a * (1 + R)'), mn=mn, mx=mx, a=a, R=rad)
